@@ -106,6 +106,60 @@ inductive Gen.Pathology where
   | corruptResponseSignature
   deriving Repr, DecidableEq
 
+/-! ### environment of `Server::process_events` (mio `Poll`, the health-check listener, the statistics timer) -/
+
+/-- mio `Poll`: the tokens this call's `poll()` reports, in the order `events.iter()` yields them -/
+structure Gen.Poll where
+  ready : List Nat := []
+  /-- `poll()` itself fails (the code `expect`s it not to) -/
+  fails : Bool := false
+  deriving Repr, DecidableEq, Inhabited
+
+/-- `self.poll.poll(events, timeout)` -/
+def Gen.Poll.poll (p : Gen.Poll) : Res Nat := if p.fails then .err else .ok p.ready.length
+
+/-- a completed connection waiting in the health-check listener's accept queue, and how its socket will behave -/
+structure Gen.Conn where
+  addr : Nat
+  writeOk : Bool := true
+  shutOk : Bool := true
+  deriving Repr, DecidableEq, Inhabited
+
+inductive Gen.TcpEvent where
+  | accepted (a : Nat)
+  | wrote (a : Nat) (bytes : Bytes)
+  | writeFailed (a : Nat)
+  | shutdown (a : Nat)
+  | shutdownFailed (a : Nat)
+  deriving Repr, DecidableEq
+
+/-- the health-check listener together with the streams `accept` hands out: the accept queue (FIFO), an optional hard
+    error reported once the queue is empty instead of WouldBlock, the connection accepted last (the `stream` the code
+    holds), and everything that happened to accepted connections, in order -/
+structure Gen.Tcp where
+  pending : List Gen.Conn := []
+  hardErr : Bool := false
+  cur : Gen.Conn := default
+  log : List Gen.TcpEvent := []
+  deriving Repr, DecidableEq, Inhabited
+
+/-- `listener.accept()`: `Ok((stream, addr))` of the oldest pending connection; on an empty queue `Err` — WouldBlock, or
+    (`hardErr`) another error kind; the code treats both alike (it stops accepting) -/
+def Gen.Tcp.accept (t : Gen.Tcp) : Res (Unit × Nat) × Gen.Tcp :=
+  match t.pending with
+  | [] => (.err, t)
+  | c :: rest => (.ok ((), c.addr), { t with pending := rest, cur := c, log := t.log ++ [.accepted c.addr] })
+
+/-- `stream.write_all(bytes)` on the connection accepted last -/
+def Gen.Tcp.writeAll (t : Gen.Tcp) (bytes : Bytes) : Res Unit × Gen.Tcp :=
+  if t.cur.writeOk then (.ok (), { t with log := t.log ++ [.wrote t.cur.addr bytes] })
+  else (.err, { t with log := t.log ++ [.writeFailed t.cur.addr] })
+
+/-- `stream.shutdown(Shutdown::Both)` on the connection accepted last -/
+def Gen.Tcp.shutdown (t : Gen.Tcp) : Res Unit × Gen.Tcp :=
+  if t.cur.shutOk then (.ok (), { t with log := t.log ++ [.shutdown t.cur.addr] })
+  else (.err, { t with log := t.log ++ [.shutdownFailed t.cur.addr] })
+
 /-- `add_errors(&r)`: applies the decision drawn for this response (model `applyGrease`, on the generated message type) -/
 def Gen.GreaseQ.addErrors (g : Gen.GreaseQ) (r : Gen.RtMessage) : Res Gen.RtMessage :=
   match applyGrease g.cur ⟨r.tags.zip r.values⟩ with
